@@ -80,11 +80,10 @@ Definition rejected (c : config) (k : kwargs) : option err :=
       else match hidden c k with None => Some EValue | Some _ => None end
   end.
 
-(** "Full hiding suppresses echo".  The docstring of [run] gives [hide=True] and
-    [hide='both'] as the same setting; the property is therefore read
-    ([strict = true]) as: a hide value that names BOTH streams -- True or 'both' --
-    switches echo off (dry-run apart).  The code tests [opts["hide"] is True] only:
-    that literal reading ([strict = false]) is what it implements (F-C15c). *)
+(** "Full hiding suppresses echo": a hide value that names BOTH streams -- True or
+    'both', which the docstring of [run] gives as one and the same setting -- switches
+    echo off (dry-run apart).  ([strict = false] is the narrower rule "hide IS True"
+    the code implemented before fix f03a111; kept for the historical lemma only.) *)
 Definition fully_hidden (v : oval) : bool :=
   match v with
   | OBool true => true
@@ -284,23 +283,7 @@ Definition spec_ok_ctx_r (strict : bool) (cc : ctxcfg) (prog : list stmt)
   ok && match rest with [] => true | _ => false end
   && oxkind_eqb r raised && cstate_eqb final (mkC [] []).
 
-(** * The specification proper: the strict reading *)
+(** * The specification proper *)
 Definition echo_on := echo_on_r true.
 Definition spec_ok_opts := spec_ok_opts_r true.
 Definition spec_ok_ctx := spec_ok_ctx_r true.
-
-(** the two readings agree on this configuration and these keyword arguments *)
-Definition echo_readings_agree (c : config) (k : kwargs) : bool :=
-  Bool.eqb (echo_on_r true c k) (echo_on_r false c k).
-
-(** ... on every call of a program *)
-Fixpoint readings_agree_stmt (c : config) (s : stmt) {struct s} : bool :=
-  match s with
-  | SRun _ k _ | SSudo _ _ k _ => echo_readings_agree c k
-  | SRaise _ => true
-  | SBlock _ body =>
-      (fix go (l : list stmt) : bool :=
-         match l with [] => true | x :: l' => readings_agree_stmt c x && go l' end) body
-  end.
-Definition readings_agree_prog (cc : ctxcfg) (prog : list stmt) : bool :=
-  forallb (readings_agree_stmt (cc_run cc)) prog.
